@@ -1347,6 +1347,13 @@ func main() {
 	writeIfChanged(filepath.Join(*out, "GenLockSkel.v"), w.Bytes())
 	fmt.Printf("go2v: GenLockSkel.v %d lock skeletons\n", nsk)
 
+	// GenLockSites.v (C04): read / write sites of the mutex-protected state with the locks held (locksites.go)
+	w.Reset()
+	fmt.Fprintf(&w, header, *repo)
+	nls, nlw := root.lockSitesSafe(&w, *repo)
+	writeIfChanged(filepath.Join(*out, "GenLockSites.v"), w.Bytes())
+	fmt.Printf("go2v: GenLockSites.v %d access sites of %d protected fields, %d lock wrappers\n", nls, len(lkFields), nlw)
+
 	// GenTypedBuf.v, GenMessages.v ...: byte-buffer methods and message codecs (methods.go)
 	emitMethodFiles(all, *repo, *out)
 }
